@@ -129,6 +129,7 @@ type world struct {
 	t0    time.Time
 	cfg   Config
 	sched *Sched
+	leadK int
 	srv   *jrpc2.Server
 
 	mu      sync.Mutex
@@ -580,6 +581,11 @@ func (w *world) exec(i int, st Step) {
 			rec = fmt.Sprintf(`{"jsonrpc":"2.0","id":%s,"error":{"code":-32050,"message":"peer says no %d","data":{"p":%d}}}`, id, st.D, st.K)
 		default:
 			rec = fmt.Sprintf(`{"jsonrpc":"2.0","id":%s,"result":{"p":%d,"n":%d}}`, id, st.K, st.D)
+		}
+		if st.ID == "lead" {
+			// the peer answers inside a batch that leads with a call of its own
+			w.leadK++
+			rec = fmt.Sprintf(`[{"jsonrpc":"2.0","id":"lead%d","method":"ret","params":{"k":%d}},%s]`, w.leadK, 700000+w.leadK, rec)
 		}
 		w.log(Event{Kind: "cbreply", K: st.K, ID: id, Method: st.Push, Data: rec})
 		w.log(Event{Kind: "queue", Data: rec})
